@@ -1,6 +1,7 @@
 """C06 — a receiver enforces its own limits (structural part)."""
 from engine.rulelib import *
 from engine import desc as D
+from engine import rulelib as RL
 
 EXPLANATION = ("Static rules over quinn-proto MIR: (a) each receive-side limit has a guard with the stated relation whose violating edge always "
                "reaches the prescribed transport error (FLOW_CONTROL_ERROR, FINAL_SIZE_ERROR, STREAM_LIMIT_ERROR, STREAM_STATE_ERROR, PROTOCOL_VIOLATION, "
@@ -407,6 +408,193 @@ def _base_selected_by_stopped(F, body, call, alts):
     return '; '.join(errs) if errs else None
 
 
+# --------------------------------------------------------------------------
+# rule d, set_receive_window: a window change never creates credit
+# --------------------------------------------------------------------------
+# Invariant kept by add_read_credits / set_receive_window:  local_max_data - debt == consumed + receive_window.
+#   shrink by s : the limit already advertised cannot be taken back, so debt += s (future credits pay it off first)
+#   expand by d : the part of d that only re-covers what an earlier shrink left outstanding is NOT new credit:
+#                 local_max_data += d (-) debt   and   debt = debt (-) d        ((-) = saturating difference)
+# Both right-hand sides speak about the state BEFORE the change (old window, old debt).
+
+def _is_monus(d, isa, isb):
+    """d IS a (-) b, the saturating difference with minuend a and subtrahend b"""
+    if d[0] == 'call' and _trait(d[1]) == 'u64::saturating_sub' and len(d[3]) == 2:
+        return isa(d[3][0]) and isb(d[3][1])
+    if d[0] == 'call' and _trait(d[1]) in ('Option::unwrap_or', 'Option::unwrap_or_default') and d[3]:
+        c = d[3][0]
+        return (len(d[3]) == 1 or _is_zero(d[3][1])) and c[0] == 'call' and _trait(c[1]) == 'u64::checked_sub' and len(c[3]) == 2 and isa(c[3][0]) and isb(c[3][1])
+    if d[0] == 'bin' and d[1] == 'Sub':
+        # a - min(a, b)
+        m = d[3]
+        return isa(d[2]) and m[0] == 'call' and _trait(m[1]) in ('u64::min', 'Ord::min', 'cmp::min') and len(m[3]) == 2 and \
+            ((isa(m[3][0]) and isb(m[3][1])) or (isa(m[3][1]) and isb(m[3][0])))
+    return False
+
+
+def _is_diff(d, isa, isb):
+    """d IS a - b (on an edge where a >= b is known the checked, saturating and absolute differences coincide)"""
+    if d[0] == 'bin' and d[1] == 'Sub':
+        return isa(d[2]) and isb(d[3])
+    if d[0] == 'call' and len(d[3]) == 2 and _trait(d[1]) == 'u64::saturating_sub':
+        return isa(d[3][0]) and isb(d[3][1])
+    if d[0] == 'call' and len(d[3]) == 2 and _trait(d[1]) == 'u64::abs_diff':
+        return (isa(d[3][0]) and isb(d[3][1])) or (isa(d[3][1]) and isb(d[3][0]))
+    return False
+
+
+def _is_sat_sum(d, isa, isb):
+    """d IS a.saturating_add(b), either operand order"""
+    if not (d[0] == 'call' and _trait(d[1]) == 'u64::saturating_add' and len(d[3]) == 2):
+        return False
+    return (isa(d[3][0]) and isb(d[3][1])) or (isa(d[3][1]) and isb(d[3][0]))
+
+
+def _rv_operands(rv):
+    k = rv[0]
+    if k == 'use':
+        return [rv[1]]
+    if k in ('ref', 'ptr'):
+        return [] if (k == 'ref' and rv[1]) else [['c', rv[2]]]
+    if k == 'bin':
+        return [rv[2], rv[3]]
+    if k in ('un', 'cast'):
+        return [rv[2]]
+    if k == 'discr':
+        return [['c', rv[1]]]
+    if k == 'agg':
+        return list(rv[2])
+    if k == 'rep':
+        return [rv[1]]
+    return []
+
+
+def _field_loads(body, adt, name):
+    """(bb, idx, line) of every read of a place through field adt.name in the body (statements, call arguments, switch /
+    assert operands); idx of a terminator = number of statements of its block"""
+    out = []
+    live = body.live_blocks()
+
+    def hit(o):
+        return isinstance(o, (list, tuple)) and len(o) > 1 and o[0] in ('c', 'm') and place_has_field(o[1], adt, name)
+    for i, j, s in body.stmts():
+        if i in live and s[0] == '=' and any(hit(o) for o in _rv_operands(s[2])):
+            out.append((i, j, s[3]))
+    for i, b in enumerate(body.blocks):
+        if b['c'] or i not in live:
+            continue
+        t = b['t']
+        ops = []
+        if t[0] == 'call':
+            ops = list(t[1]['args'])
+        elif t[0] in ('switch', 'assert'):
+            ops = [t[1]]
+        if any(hit(o) for o in ops):
+            out.append((i, len(b['s']), t[1]['line'] if t[0] == 'call' else 0))
+    return out
+
+
+def _window_change(ctx, srw):
+    F = ctx.facts
+    DEBT, WIN, LMD = 'receive_window_shrink_debt', 'receive_window', 'local_max_data'
+
+    def is_old(d):
+        return _is_self_field(d, WIN)
+
+    def is_debt(d):
+        return _is_self_field(d, DEBT)
+
+    def is_lmd(d):
+        return _is_self_field(d, LMD)
+    # ---- anchor: the window being installed = the one value stored to self.receive_window, an argument of the function
+    wins = store_values(ctx, SS, WIN, in_fn=srw)
+    ctx.floor('d', 'receive_window_stores', len(wins), 1)
+    news = {v for _, v in wins}
+    new = next(iter(news)) if len(news) == 1 else None
+    okn = new is not None and new[0] == 'param' and new[1] >= 2
+    ctx.check(okn, 'd', 'installed_window_is_the_argument', srw, wins[0][0].where() if wins else srw.where(), D.render(new) if new else '',
+              'set_receive_window does not install exactly its argument as self.receive_window: %s' % ' | '.join(D.render(v)[:80] for v in news))
+    if not okn:
+        return
+
+    def is_new(d):
+        return d == new
+    # ---- the direction test: old < new (or old <= new: an unchanged window is a no-op in either arm)
+    edges = guard_edges(ctx, srw, lambda o, a, b: o in ('Lt', 'Le') and is_old(a) and is_new(b))
+    arms = []
+    for br, truth, t_exp in edges:
+        t_shr = br.target(0 if truth else 1)
+        if t_shr is not None and t_shr != t_exp:
+            arms.append((br, t_exp, t_shr))
+    if not arms:
+        ctx.bad('d', 'window_change_direction/guard_missing', srw, srw.where(),
+                'no branch comparing the new window with self.receive_window separates expansion from shrinking' + RL._offset_note(srw))
+        return
+
+    def side(bb):
+        for br, t_exp, t_shr in arms:
+            if edge_dominates(srw, br.bb, t_exp, bb) and bb not in srw.reachable_from(t_shr, avoid=[br.bb]):
+                return 'expand'
+            if edge_dominates(srw, br.bb, t_shr, bb) and bb not in srw.reachable_from(t_exp, avoid=[br.bb]):
+                return 'shrink'
+        return None
+
+    def is_growth(d):  # new - old
+        return _is_diff(d, is_new, is_old)
+
+    def is_cut(d):  # old - new
+        return _is_diff(d, is_old, is_new)
+    # ---- the debt: accumulated by a shrink, paid off (not wiped, not kept) by an expansion
+    good = {'expand': [], 'shrink': []}
+    debts = store_values(ctx, SS, DEBT, in_fn=srw)
+    ctx.floor('d', 'shrink_debt_stores', len(debts), 1)
+    for w, v in debts:
+        sd = side(w.bb) if w.body.id == srw.id else None
+        if sd == 'shrink':
+            ok = _is_sat_sum(v, is_debt, is_cut)
+            ctx.check(ok, 'd', 'shrink_debt_accumulates', srw, w.where(), D.render(v)[:140],
+                      'on a shrink receive_window_shrink_debt must become debt.saturating_add(old window - new window) (accumulated, not overwritten): ' + D.render(v)[:200])
+        elif sd == 'expand':
+            ok = _is_monus(v, is_debt, is_growth)
+            ctx.check(ok, 'd', 'expansion_pays_off_shrink_debt', srw, w.where(), D.render(v)[:140],
+                      'on an expansion receive_window_shrink_debt must become debt.saturating_sub(new window - old window) (paid off by the growth, neither wiped nor kept): ' + D.render(v)[:200])
+        else:
+            ok = False
+            ctx.bad('d', 'shrink_debt_accumulates', srw, w.where(), 'a store to receive_window_shrink_debt is not confined to the expanding or to the shrinking arm of the direction test: ' + D.render(v)[:160])
+        if ok:
+            good[sd].append(w.bb)
+    # .. on every path of its arm (a path may skip the pay-off only over an edge on which debt == 0 holds)
+    zero = {(br.bb, tgt) for br, truth, tgt in guard_edges(ctx, srw, lambda o, a, b: (o == 'Eq' and ((is_debt(a) and _is_zero(b)) or (is_debt(b) and _is_zero(a)))) or (o == 'Le' and is_debt(a) and _is_zero(b)))}
+    rets = set(srw.return_blocks())
+    for br, t_exp, t_shr in arms:
+        leak = rets & srw.reachable_from(t_exp, avoid=good['expand'], avoid_edges=zero)
+        ctx.check(not leak, 'd', 'expansion_pays_off_shrink_debt', srw, br.where(), 'every expanding path stores debt (-) growth',
+                  'a path expands the receive window without paying the growth off receive_window_shrink_debt: later read credits are withheld for a debt that '
+                  'no longer exists, or (with the credit un-netted) local_max_data runs ahead of consumed + window')
+        leak = rets & srw.reachable_from(t_shr, avoid=good['shrink'])
+        ctx.check(not leak, 'd', 'shrink_debt_accumulates', srw, br.where(), 'every shrinking path stores debt + cut',
+                  'a path shrinks the receive window without recording the cut in receive_window_shrink_debt: read credits keep re-opening the old, larger window')
+    # ---- the credit: only an expansion raises local_max_data, and only by the growth NET of the outstanding debt
+    n = 0
+    for w, v in store_values(ctx, SS, LMD, in_fn=srw):
+        sd = side(w.bb) if w.body.id == srw.id else None
+        ok = sd == 'expand' and _is_sat_sum(v, is_lmd, lambda x: _is_monus(x, is_growth, is_debt))
+        n += ok
+        ctx.check(ok, 'd', 'expansion_nets_shrink_debt', srw, w.where(), D.render(v)[:160],
+                  'set_receive_window may raise local_max_data only in its expanding arm and only by (new window - old window).saturating_sub(receive_window_shrink_debt) '
+                  '(an earlier shrink left local_max_data ahead of the window by the debt; re-expanding must not grant that part twice): %s store of %s'
+                  % (sd or 'unconfined', D.render(v)[:200]))
+    ctx.floor('d', 'expansion_credit_stores', n, 1)
+    # ---- "old window", "old debt", "old limit": nothing is read back after it has been updated
+    for f in (DEBT, WIN, LMD):
+        stores = [w for w, _ in store_values(ctx, SS, f, in_fn=srw) if w.body.id == srw.id]
+        for bb, idx, line in _field_loads(srw, SS, f):
+            late = [w for w in stores if (w.bb == bb and idx > w.idx) or (bb in srw.reachable_strict(w.bb))]
+            ctx.check(not late, 'd', 'window_change_uses_state_before_update', srw, '%s:%d' % (srw.file, line) if line else srw.where(), 'self.%s read before it is updated' % f,
+                      'self.%s is read after set_receive_window has already updated it (store at %s): the netting must use the debt / window / limit from before the change'
+                      % (f, late[0].where() if late else ''))
+
+
 def rule_d(ctx):
     F = ctx.facts
     who_may_write(ctx, 'd', 'local_max_data_writers', SS, 'local_max_data', ['StreamsState::add_read_credits', 'StreamsState::set_receive_window', 'StreamsState::new'], floor=2)
@@ -420,12 +608,8 @@ def rule_d(ctx):
             x = v[3][1]
             ok2 = x[0] == 'bin' and x[1] == 'Sub' and D.has_param(x[2], name='credits') and D.has_field(x[3], 'receive_window_shrink_debt')
             ctx.check(ok2, 'd', 'credits_net_of_shrink_debt', r, w.where(), D.render(x), 'credits are not reduced by receive_window_shrink_debt: ' + D.render(x))
-    # shrink debt accumulates
-    srw = ctx.pfn('StreamsState::set_receive_window')
-    for w, v in store_values(ctx, SS, 'receive_window_shrink_debt', in_fn=srw):
-        ok = v[0] == 'call' and v[1] == 'u64::saturating_add' and D.has_field(v[3][0], 'receive_window_shrink_debt')
-        ctx.check(ok, 'd', 'shrink_debt_accumulates', srw, w.where(), D.render(v)[:140], 'receive_window_shrink_debt is overwritten instead of accumulated on repeated shrinks: ' + D.render(v)[:200])
-    ctx.floor('d', 'shrink_debt_stores', len(store_values(ctx, SS, 'receive_window_shrink_debt', in_fn=srw)), 1)
+    # a window change moves credit between local_max_data and the shrink debt, never creates any
+    _window_change(ctx, ctx.pfn('StreamsState::set_receive_window'))
     # sent_max_data / sent_max_stream_data only raised
     wcf = ctx.pfn('StreamsState::write_control_frames')
     for w, v in store_values(ctx, SS, 'sent_max_data', in_fn=wcf):
